@@ -190,6 +190,8 @@ class Program(object):
             if name not in sources:
                 raise AnalysisError("module %s.%s is missing" % (PKG, name))
         trees = dict((name, parse_module(name, text)) for name, text in sources.items())
+        from .constprop import propagate
+        self.constants_propagated = propagate(trees)
         from .inline import import_foreign_helpers
         self.foreign_helpers = import_foreign_helpers(trees)
         for name, text in sources.items():
